@@ -149,6 +149,32 @@ def run_source(kind: str, data: bytes, sched, integ: str, entry: str, tmpdir: st
         raw = sources.DribbleRaw(comp, sched)
         with gzip.GzipFile(fileobj=io.BufferedReader(raw), mode="rb") as f:
             r = parse_from(integ, entry, f)
+    elif kind in ("dribble-raw-coop", "dribble-buffered-coop"):
+        # cooperative multitasking (gevent, a hand-written scheduler): whenever THIS parse's source is asked for bytes, another
+        # parse of another stream - with a dribbling source of its own - gets to run until its next item
+        other = _OTHER[0] or data
+
+        class _Coop(sources.DribbleRaw):
+            busy = False
+            it = None
+
+            def readinto(self, b):
+                if not _Coop.busy:
+                    _Coop.busy = True
+                    try:
+                        from pyjelly.integrations.generic import parse as _gp
+                        if _Coop.it is None:
+                            _Coop.it = iter(_gp.parse_jelly_flat(sources.DribbleRaw(other, [1, 2, 3, 5, 1])))
+                        if next(_Coop.it, None) is None:
+                            _Coop.it = None
+                    except Exception:  # noqa: BLE001 - the other parse is not what is judged
+                        _Coop.it = None
+                    finally:
+                        _Coop.busy = False
+                return super().readinto(b)
+        raw = _Coop(data, sched)
+        r = parse_from(integ, entry, raw if kind == "dribble-raw-coop" else io.BufferedReader(raw))
+        log = raw.log
     elif kind == "dribble-raw":
         raw = sources.DribbleRaw(data, sched)
         r = parse_from(integ, entry, raw)
@@ -203,7 +229,11 @@ def run_source(kind: str, data: bytes, sched, integ: str, entry: str, tmpdir: st
 
 KINDS = ["gzip-over-nonseekable", "seekable-dribble-buffered", "gzip-over-seekable-dribble", "buffered-tail1-of-16", "buffered-tail2-of-16",
          "buffered-tail1-of-8192", "buffered-tail2-of-8192", "file", "file-raw-buffered", "bytesio-offset", "file-offset", "gzip", "gzip-file", "bz2-file", "lzma-file", "dribble-raw", "dribble-buffered", "pipe-raw", "pipe-buffered",
-         "socket-raw", "socket-buffered", "socket-timeout-raw-fd", "pipe-raw-fd"]
+         "socket-raw", "socket-buffered", "socket-timeout-raw-fd", "pipe-raw-fd", "dribble-raw-coop", "dribble-buffered-coop"]
+
+
+_NEXT_OTHER: list = [None]
+_OTHER: list = [None]         # the previous iteration's stream: what the OTHER parse of the cooperative kinds reads
 
 
 def nontrivial(log, data: bytes, frames) -> bool:
@@ -279,6 +309,8 @@ def _iteration(ctx, rng, i, tmpdir):
                                      else "events differ from the intended events")})
         ctx.case((gen.case_hash(data), "bytesio"), False)
         return
+    if len(data) < 20000 and vs["delimited"]:
+        _OTHER[0], _NEXT_OTHER[0] = (_NEXT_OTHER[0] or data), data
     scheds = schedules(rng, data, vs["frames"])
     if len(data) > 60000:
         scheds = [(n, sc) for n, sc in scheds if n in ("1-1-k", "2-k", "1-k", "random-big")] + \
@@ -303,6 +335,8 @@ def _iteration(ctx, rng, i, tmpdir):
             elif got != base:
                 w = {"clause": "events-differ", "summary": f"{kind}/{sname}: {len(got)} events vs baseline {len(base)}"}
             if w:
+                if kind.endswith("coop"):
+                    w["other_bytes"] = (_OTHER[0] or data).hex()
                 w.update({"integration": integ, "source": kind, "schedule_name": sname, "schedule": (sched or [])[:70],
                           "first_read": first, "read_log": (log or [])[:12], "bytes": data.hex(),
                           "delimited": vs["delimited"], "entry": entry, "producer": vs["producer"]})
@@ -367,6 +401,7 @@ def replay(w: dict):
         got, exc2 = parse_from(integ, w["entry"], io.BufferedReader(raw) if w["source"].endswith("buffered") else raw)
         return {"clause": w["clause"], "summary": "still ends normally"} if exc2 is None and got != base else None
     data = bytes.fromhex(w["bytes"])
+    _OTHER[0] = bytes.fromhex(w["other_bytes"]) if w.get("other_bytes") else None
     if w.get("source") == "bytesio":
         _b, exc = parse_from(w.get("integration", "generic"), w["entry"], io.BytesIO(data))
         return {"clause": "raised", "summary": f"BytesIO: {type(exc).__name__}: {exc}"} if exc is not None else None
